@@ -567,6 +567,8 @@ func (e *eng) Exec(op []string) string {
 		return "member=" + common.B2s(member) + " " + m.pu()
 	case "racejoin":
 		return e.racejoin(a(1), a(2), a(3))
+	case "leavejoin":
+		return e.leavejoin(op[1], a(2))
 	case "histsnap":
 		return e.histsnap(a(1), a(2))
 	case "p9":
@@ -835,6 +837,10 @@ func gen(t *common.Trace, e common.Engine, r *common.Rng, thorough bool) {
 	e.Reset()
 	for _, mx := range []int{1, 2, 3} {
 		common.Do(t, e, fmt.Sprintf("racejoin %d %d %d", 6, mx, 60000))
+	}
+	// the last operator leaves while a non-operator's slow password check is in progress (C10: autokick/autolock under every interleaving)
+	for _, kind := range []string{"autokick", "autolock", "autokick"} {
+		common.Do(t, e, fmt.Sprintf("leavejoin %s %d", kind, 150000))
 	}
 	// a history snapshot handed out must be a copy (C13/C15)
 	for _, hn := range [][2]int{{10, 5}, {49, 3}, {50, 1}, {50, 60}, {75, 10}} {
